@@ -42,8 +42,8 @@ def load_corpus():
 
 def quick_slice(progs):
     """Deterministic slice for the quick tier: everything hand-written outside the big template products, every
-    fifth program of the products and of the extracted snippets (offset chosen by the seed)."""
-    off = vlib.seed() % 5
+    sixth program of the products and of the extracted snippets (offset chosen by the seed)."""
+    off = vlib.seed() % 6
     out = []
     k = 0
     for p in progs:
@@ -53,7 +53,7 @@ def quick_slice(progs):
             out.append(p)
         else:
             k += 1
-            if k % 5 == off:
+            if k % 6 == off:
                 out.append(p)
     return out
 
@@ -455,7 +455,7 @@ def run(tier, replay=None):
             ck.assumptions.append(f"tools/jscore.py programs not included ({type(e).__name__}: {e})")
     # programs that are also executed (dynamic half): scripts of the committed corpus; they are compiled through the
     # "run" path, which also captures blocks compiled later by eval / Function
-    ndyn = 300 if tier == "quick" else 2500
+    ndyn = 250 if tier == "quick" else 2500
     dyn_idx = [i for i, p in enumerate(progs) if p["kind"] == "script" and p["origin"] in ("hand", "extracted") and not p["strict"]]
     rng.shuffle(dyn_idx)
     dyn_idx = set(dyn_idx[:ndyn])
